@@ -1,6 +1,6 @@
 (* C09: a small concrete codec satisfying the laws the theorems assume (so that they are not vacuous),
    and concrete runs of the executable toy instance used as witnesses. *)
-From AV Require Import Lib.Base Generated.DecodeGen Model.Decode Proofs.DecodeBound.
+From AV Require Import Lib.Base Generated.DecodeGen Model.Decode Proofs.DecodeBound Proofs.DecodeProgress.
 From Coq Require Import ZifyBool ZifyN.
 Ltac Zify.zify_post_hook ::= Z.to_euclidean_division_equations.
 Open Scope N_scope.
@@ -48,6 +48,27 @@ Proof.
   exact (bounded_memory bytes ic_new ic_step ic_avail ic_eof ic_flush (fun m => m) ic_cap id_mono f c t len enc evs y os Hf Hl He Hr).
 Qed.
 
+Lemma take_nil (m : N) (l : bytes) : m <> 0 -> take m l = [] -> l = [].
+Proof.
+  unfold take. destruct (lenN l <=? m); [auto|]. intros Hm. destruct l; [auto|].
+  destruct (N.to_nat m) eqn:E; [lia|]. cbn. discriminate.
+Qed.
+
+Lemma ic_avail_law : forall h x m h', ic_step h x m = Some (Some (h', [])) -> ic_avail h' = false.
+Proof.
+  intros h x m h'. unfold ic_step, ic_avail. destruct (m =? 0) eqn:E.
+  - intros [= <- _]. reflexivity.
+  - intros [= <- Ht]. apply take_nil in Ht; [|lia]. rewrite Ht. unfold drop.
+    replace (lenN (@nil N) <=? m) with true by (symmetry; apply N.leb_le; cbn; lia). reflexivity.
+Qed.
+
+Lemma progress_nonchunked_idcap : forall f c t len enc evs (y : ic_sys) os,
+  1 <= c_limit c -> t <> PChunked ->
+  ic_run f (ic_init c t len enc) evs = (y, os) ->
+  buf (re (core y)) = [] -> connected (pr (core y)) = true ->
+  has_more (pr (core y)) = false /\ rpaused (pr (core y)) = false /\ tpaused (pr (core y)) = false.
+Proof. exact (progress_nonchunked bytes ic_new ic_step ic_avail ic_eof ic_flush ic_avail_law). Qed.
+
 (* ---- witnesses on the executable toy instance ------------------------------------------------- *)
 Definition toy_run (fuel : nat) (y : toy_sys) (evs : list event) : toy_sys * list obs :=
   run toy_zh toy_hnew toy_hstep toy_havail toy_heof toy_hflush fuel y evs.
@@ -63,6 +84,17 @@ Definition w_stale_init : toy_sys := toy_init 1 true 8190 8190 125 true PChunked
 Definition stalled {H} (y : sys H) : Prop :=
   pend y <> None /\ buf (re (core y)) = [] /\ reof (re (core y)) = false /\ rexn (re (core y)) = None /\
   connected (pr (core y)) = true /\ tpaused (pr (core y)) = false /\ has_more (pr (core y)) = true.
+
+Lemma not_stalled_nonchunked :
+  forall (H : Type) (hnew : N -> H) (hstep : H -> bytes -> N -> option (option (H * bytes))) (havail heof : H -> bool) (hflush : H -> option bytes),
+    (forall h x m h', hstep h x m = Some (Some (h', [])) -> havail h' = false) ->
+    forall f c t len enc evs (y : sys H) os,
+      1 <= c_limit c -> t <> PChunked ->
+      run H hnew hstep havail heof hflush f (init H hnew c t len enc) evs = (y, os) -> ~ stalled y.
+Proof.
+  intros H hnew hstep havail heof hflush Hlaw f c t len enc evs y os Hl Ht Hr (_ & Hb & _ & _ & Hc & _ & Hm).
+  destruct (progress_nonchunked H hnew hstep havail heof hflush Hlaw f c t len enc evs y os Hl Ht Hr Hb Hc) as (X & _). congruence.
+Qed.
 
 Lemma stale_pause_witness : stalled (fst (toy_run 100 w_stale_init w_stale_events)).
 Proof. vm_compute. repeat split; discriminate. Qed.
